@@ -1399,7 +1399,18 @@ func c12ReadableListing(store string) string {
 // the repair BEFORE it serves (as it must), no request is handled while the prune is held, the hold times out, the
 // prune completes and the operation starts from a clean store; if the repair runs concurrently with serving, the
 // operation sees the blob, the prune then removes it, and the monitors report the missing layer.
+// c12ServeOnly runs the REAL Serve on the store (traced child, no hold) until it answers a request — i.e. until its
+// start-up store repair is complete — and stops it: what the real start-up sequence does to this store.
+func c12ServeOnly(t *testing.T, self string, op *c12Op, dir string) (result string, startErr string) {
+	r, e, _ := c12LiveRestartX(t, self, op, dir, "", true)
+	return r, e
+}
+
 func c12LiveRestart(t *testing.T, self string, op *c12Op, dir, leftover string) (result string, startErr string, opts *c12TraceOpts) {
+	return c12LiveRestartX(t, self, op, dir, leftover, false)
+}
+
+func c12LiveRestartX(t *testing.T, self string, op *c12Op, dir, leftover string, probeOnly bool) (result string, startErr string, opts *c12TraceOpts) {
 	specPath := dir + ".serve.json"
 	raw, _ := json.Marshal(op)
 	os.WriteFile(specPath, raw, 0o644)
@@ -1439,7 +1450,13 @@ func c12LiveRestart(t *testing.T, self string, op *c12Op, dir, leftover string) 
 		}
 		body := fmt.Sprintf(`{"model":%q,"stream":false}`, op.Name)
 		cl := &http.Client{Timeout: 300 * time.Second, Transport: &http.Transport{}}
-		resp, err := cl.Post("http://"+addr+"/api/pull", "application/json", strings.NewReader(body))
+		var resp *http.Response
+		var err error
+		if probeOnly {
+			resp, err = cl.Get("http://" + addr + "/api/version")
+		} else {
+			resp, err = cl.Post("http://"+addr+"/api/pull", "application/json", strings.NewReader(body))
+		}
 		if err != nil {
 			if _, e2 := os.Stat(specPath + ".serve-error"); e2 == nil {
 				resCh <- "err:startup"
@@ -1857,6 +1874,7 @@ func TestVerifC12(t *testing.T) {
 			)
 		}
 
+		distinctStates := 0
 		for i := range scen {
 			sc := &scen[i]
 			tag := fmt.Sprintf("r%d %s %s", round, sc.Store, sc.Label)
@@ -2081,6 +2099,7 @@ func TestVerifC12(t *testing.T) {
 
 			// ---- every crash point
 			seen := map[string]bool{}
+			const serveSampleEvery = 60
 			for _, n := range points {
 				if replay != "" && !strings.HasPrefix(replay, fmt.Sprintf("%s %d ", tag, n)) {
 					continue
@@ -2176,6 +2195,14 @@ func TestVerifC12(t *testing.T) {
 					os.RemoveAll(dir)
 					continue
 				}
+				// ---- a sample of the crash states also goes through the REAL Serve (child process; no hold): the store it
+				// leaves when it starts answering must be the store the in-process start-up sequence below leaves
+				serveDir := ""
+				if !sc.NoL1 && (sc.Op.Kind == "pull" || sc.Op.Kind == "create") && distinctStates%serveSampleEvery == serveSampleEvery/2 {
+					serveDir = dir + "-serve"
+					c12CopyTree(dir, serveDir)
+				}
+				distinctStates++
 				// ---- restart (the real start-up sequence) and the L2 walk
 				t.Setenv("OLLAMA_MODELS", dir)
 				if sc.Op.NoPrune {
@@ -2190,6 +2217,22 @@ func TestVerifC12(t *testing.T) {
 				if !inRmRun {
 					out.Case(fmt.Sprintf("restarted %d %s", k, job), c12Join(c12State(dir)))
 					out.Count("l1_restarted_lines")
+				}
+				if serveDir != "" {
+					want := c12Join(c12State(dir))
+					r, startErr := c12ServeOnly(t, self, sc.Op, serveDir)
+					if r != "ok" && startErr == "" {
+						out.Count("serve_sample_timeouts") // wall clock: machinery, not a property failure
+					} else {
+						out.Count("serve_samples")
+						if startErr != "" {
+							out.L2("restart-failed", caseLine, "real Serve returned: "+startErr)
+						} else if got := c12Join(c12State(serveDir)); got != want {
+							out.L2("serve-startup-differs", caseLine, fmt.Sprintf("the store the real Serve leaves when it starts answering differs from the store the start-up sequence of the driver leaves: got [%s] want [%s]", got, want))
+						}
+					}
+					os.RemoveAll(serveDir)
+					t.Setenv("OLLAMA_MODELS", dir)
 				}
 				if pruned {
 					out.Count("restart_pruned")
